@@ -533,50 +533,65 @@ static void deep_chain_episode(void)
 	op_free(1, false);
 	op_reset();
 }
-/* a node with two children of different prefix lengths (and grandchildren below both) is removed, then its children one
- * by one: the pull-up in trie_remove must promote the shorter child, or a record ends up below a longer prefix.  After
- * every step every record of the pool is asked for exactly. */
+/* A node X with two children of different prefix lengths (and a grandchild below each) is removed, then its children
+ * one by one: the pull-up in trie_remove must promote the shorter child, or a record ends up below a longer prefix
+ * where trie_lookup_exact no longer finds it.  In this trie the children of a node at depth d are told apart by bit d
+ * of their prefixes (they need not extend the node's prefix): d ancestors along one bit path, X at depth d, a left
+ * record with bit d = 0 and a right record with bit d = 1, both longer than X.  After every step every record of the
+ * pool is asked for exactly. */
+static unsigned int addr_bit(const struct lrtr_ip_addr *a, unsigned int bit)
+{
+	return a->ver == LRTR_IPV4 ? (a->u.addr4.addr >> (31 - bit)) & 1 : (a->u.addr6.addr[bit / 32] >> (31 - bit % 32)) & 1;
+}
+static void set_addr_bit(struct lrtr_ip_addr *a, unsigned int bit, unsigned int v)
+{
+	if (addr_bit(a, bit) != v)
+		flip_bit(a, bit);
+}
 static void fork_episode(void)
 {
 	int fam = vh_chance(50) ? 6 : 4;
 	unsigned int maxb = fam == 4 ? 32 : 128;
-	unsigned int k = 1 + vh_rn(maxb - 14);
+	unsigned int d = vh_rn(4), k = d + 1 + vh_rn(3);
 	struct lrtr_ip_addr base;
-	int order[8];
+	int order[16], ix, il, ir;
 
 	rand_addr(&base, fam);
-	mask_addr(&base, k);
 	asn_pool[0] = 0;
 	asn_pool[1] = 1;
 	asn_pool[2] = 65000;
 	for (int i = 3; i < 8; i++)
 		asn_pool[i] = vh_r32();
 	npool = 0;
-	for (int i = 0; i < 6; i++) {
+	for (unsigned int i = 0; i < d + 5; i++) {
 		struct pfx_record *r = &pool[npool++];
-		/* 0: parent of the fork, 1: the fork X, 2 / 3: left / right child, 4 / 5: one grandchild below each */
-		unsigned int la = k + 1 + vh_rn(5), lb = k + 1 + vh_rn(5);
 
 		memset(r, 0, sizeof(*r));
-		r->prefix = base;
-		r->min_len = k;
-		if (i == 0) {
-			r->min_len = k - 1;
-			mask_addr(&r->prefix, k - 1);
-		} else if (i == 2) {
-			r->min_len = la;
-		} else if (i == 3) {
-			flip_bit(&r->prefix, k);
-			r->min_len = lb;
-		} else if (i >= 4) {
+		if (i < d) { /* ancestors: lengths 1..d along the path */
+			r->prefix = base;
+			r->min_len = i + 1;
+		} else if (i == d) { /* X */
+			r->prefix = base;
+			r->min_len = k;
+		} else if (i <= d + 2) { /* left / right: the path, bit d = 0 / 1, anything behind it */
+			rand_addr(&r->prefix, fam);
+			for (unsigned int b = 0; b < d; b++)
+				set_addr_bit(&r->prefix, b, addr_bit(&base, b));
+			set_addr_bit(&r->prefix, d, i == d + 1 ? 0 : 1);
+			r->min_len = k + 1 + vh_rn(6);
+		} else { /* a grandchild below each */
 			*r = pool[i - 2];
 			flip_bit(&r->prefix, r->min_len);
 			r->min_len += 1 + vh_rn(4);
 		}
+		mask_addr(&r->prefix, r->min_len);
 		r->max_len = vh_chance(50) ? r->min_len : r->min_len + vh_rn(maxb - r->min_len + 1);
 		r->asn = asn_pool[1 + vh_rn(7)];
 		r->socket = &socks[vh_rn(3)];
 	}
+	ix = d;
+	il = d + 1;
+	ir = d + 2;
 	op_init(1, true);
 	for (int i = 0; i < npool; i++)
 		order[i] = i;
@@ -589,19 +604,20 @@ static void fork_episode(void)
 	for (int i = 0; i < npool; i++)
 		op_add(1, &pool[order[i]]);
 	pool_sweep(1);
-	op_rm(1, &pool[1]);
+	op_rm(1, &pool[ix]);
 	pool_sweep(1);
-	int first = vh_chance(50) ? 2 : 3;
+	int first = vh_chance(50) ? il : ir, second = first == il ? ir : il;
 
 	op_rm(1, &pool[first]);
 	pool_sweep(1);
-	op_add(1, &pool[1]);
+	op_add(1, &pool[ix]);
 	op_add(1, &pool[first]);
 	pool_sweep(1);
-	op_rm(1, &pool[1]);
-	op_rm(1, &pool[5 - first]);
+	op_rm(1, &pool[ix]);
+	op_rm(1, &pool[second]);
 	pool_sweep(1);
-	op_rm(1, &pool[0]);
+	if (d > 0)
+		op_rm(1, &pool[0]);
 	op_rm(1, &pool[first]);
 	pool_sweep(1);
 	rand_query(1, 10);
